@@ -13,6 +13,11 @@ structure DSt where
   clock : Int
   /-- full dumps (ids) or counts only -/
   full : Bool
+  /-- time of the latest record submitted -/
+  lastTs : Option Int := none
+  /-- some record got a time not after the time of the record before it (the
+  clock was stepped back): answers are judged by `specSearchStepped` -/
+  stepped : Bool := false
 
 structure DState where
   st : Option DSt := none
@@ -151,7 +156,7 @@ def stepSearch (d : DSt) (ins impl : List String) : Option String := do
       | "PANIC" :: _ => modelObs == ["PANIC"]
       | _ => modelObs == impl)
     let spec := match parseAnswer impl with
-      | some a => specSearch d.g req a
+      | some a => if d.stepped then specSearchStepped d.g req a else specSearch d.g req a
       | none => some "C07.answer-unreadable"
     let cls := match m with
       | .error _ => "search:panic"
@@ -162,12 +167,14 @@ def stepSearch (d : DSt) (ins impl : List String) : Option String := do
 
 /-- `C07.add` (Add, then the flush goroutine it started runs) and `C07.addthen`
 (Add, then clear / shutdown / restart BEFORE that goroutine runs, then it runs). -/
-def addLike (d : DSt) (impl : List String) (t : Option Then)
+def addLike (d : DSt) (impl : List String) (t : Option Then) (isAt : Bool)
     (id dt qname cid ip ipAnon reason isF : String) : Option (DSt × String) := do
   let dt ← dt.toNat?
-  let clock := d.clock + dt
+  -- `C07.addat`: the field is the record's time itself; the fake clock stays
+  let clock := if isAt then d.clock else d.clock + dt
+  let ts : Int := if isAt then dt else clock
   let e : Entry := {
-    ts := clock, host := normalizeDomain (← hexDecode qname), cid := ← hexDecode cid, ip := ← hexDecode ip
+    ts := ts, host := normalizeDomain (← hexDecode qname), cid := ← hexDecode cid, ip := ← hexDecode ip
     ipAnon := ← hexDecode ipAnon
     reason := ← reason.toNat?, isFiltered := ← parseBool isF, id := ← id.toNat? }
   let op : Op := match t with
@@ -176,8 +183,11 @@ def addLike (d : DSt) (impl : List String) (t : Option Then)
   let s' := step d.s op
   let g' := gStep d.g op
   let spawned := (addRaw d.s e).tasks > d.s.tasks
+  let back := match d.lastTs with
+    | some l => decide (ts ≤ l)
+    | none => false
   let kind : String := match t with
-    | none => "add"
+    | none => if isAt then (if back then "addat.back" else "addat") else "add"
     | some Then.clear => "addthen.clear"
     | some Then.shutdown => "addthen.shutdown"
     | some (Then.restart _ _ _) => "addthen.restart"
@@ -186,29 +196,37 @@ def addLike (d : DSt) (impl : List String) (t : Option Then)
   let (d', out) := answerOp cls d s' g' clock ["1"] impl
   let out := if impl.head? == some "0" then
     verdict (out.startsWith "AGREE") (some "C07.roundtrip") (joinWith "\t" (cls :: "1" :: showDump d.full s')) else out
+  let d' := if d.s.conf.enabled then { d' with lastTs := some ts, stepped := d.stepped || back } else d'
   pure (d', out)
 
 def stepOp (d : DSt) (op : String) (ins impl : List String) : Option (DSt × String) := do
   match op, ins with
   | "C07.add", [id, dt, qname, cid, ip, ipAnon, reason, isF, _variant] =>
-    addLike d impl none id dt qname cid ip ipAnon reason isF
+    addLike d impl none false id dt qname cid ip ipAnon reason isF
+  | "C07.addat", [id, rel, qname, cid, ip, ipAnon, reason, isF, _variant] =>
+    addLike d impl none true id rel qname cid ip ipAnon reason isF
   | "C07.addthen", id :: dt :: qname :: cid :: ip :: ipAnon :: reason :: isF :: _variant :: thn =>
     let t : Then ← (match thn with
       | ["clear"] => some Then.clear
       | ["shutdown"] => some Then.shutdown
       | ["restart", m, f, en] => do pure (Then.restart (← m.toNat?) (← parseBool f) (← parseBool en))
       | _ => none)
-    addLike d impl (some t) id dt qname cid ip ipAnon reason isF
+    addLike d impl (some t) false id dt qname cid ip ipAnon reason isF
   | "C07.shutdown", [] =>
     pure (answerOp "shutdown" d (step d.s .shutdown) (gStep d.g .shutdown) d.clock [] impl)
   | "C07.rotate", [] =>
     let cls := if d.s.cur.isEmpty then "rotate.nofile" else "rotate"
     pure (answerOp cls d (step d.s .rotate) (gStep d.g .rotate) d.clock [] impl)
-  | "C07.rotcheck", [dt] =>
+  -- the optional second field (a zero-byte current file is there when the
+  -- check runs) is for the harness: to the model and to the spec "no current
+  -- file" and "current file without a record" are the same state
+  | "C07.rotcheck", dt :: touch =>
+    if touch.length > 1 then none else
     let dt ← dt.toNat?
     let clock := d.clock + dt
     let s' := step d.s (.rotCheck clock)
-    let cls := if s'.rot == d.s.rot && s'.cur == d.s.cur then "rotcheck.keep" else "rotcheck.rotate"
+    let cls := (if s'.rot == d.s.rot && s'.cur == d.s.cur then "rotcheck.keep" else "rotcheck.rotate") ++
+      (if touch == ["1"] && d.s.cur.isEmpty then ".zerofile" else "")
     pure (answerOp cls d s' (gStep d.g (.rotCheck clock)) clock [] impl)
   | "C07.clear", [] =>
     pure (answerOp "clear" d (step d.s .clear) (gStep d.g .clear) d.clock [] impl)
